@@ -34,10 +34,10 @@ class FeatureBed(Case):
     props = ("C14", "C16")
     func = FEATURE + ".to_bed12"
 
-    def __init__(self, n, chunk):
-        self.n, self.chunk = n, chunk
+    def __init__(self, n, chunk, overlap=False):
+        self.n, self.chunk, self.overlap = n, chunk, overlap
         mode = "chunk-relative" if chunk else "chromosome"
-        self.name = f"FeatureInterval.to_bed12[{n} blocks, {mode}]"
+        self.name = f"FeatureInterval.to_bed12[{n} blocks{', blocks may overlap or nest' if overlap else ''}, {mode}]"
         self.call = f"f.to_bed12(chromosome_relative_coordinates={not chunk})"
         self.ensures = {
             "format-invariants": lambda i, r: bed_invariants(r),
@@ -50,9 +50,15 @@ class FeatureBed(Case):
             # C16: the bin stored at construction is the UCSC bin of the CHROMOSOME span (also on a chunk parent)
             "stored-bin-is-bin-of-chromosome-span": lambda i, r: i.f.bin == _spec_bin(i.span[0], i.span[1]),
         }
+        if overlap:
+            # blocks that overlap / nest are not a valid BED layout (the format's own invariants need disjoint
+            # ascending blocks); what the property still demands is that decoding returns exactly the given blocks,
+            # each start with ITS end
+            self.ensures = {k: v for k, v in self.ensures.items() if k in ("decodes-to-exported-blocks",
+                                                                           "strand-name-chrom")}
 
     def inputs(self, S):
-        starts, ends = block_lists(S, "f", self.n)
+        starts, ends = block_lists(S, "f", self.n, allow_overlap=self.overlap)
         strand = strand_of(S, "strand")
         if self.chunk:
             cp, cs, ce = chunk_parent(S)
@@ -249,4 +255,5 @@ class TranscriptBedCutChunk(Case):
 
 CASES = [BedText(1), BedText(3), TranscriptBedCutChunk(1), TranscriptBedCutChunk(2)]
 CASES += [FeatureBed(n, c) for n in (1, 2, 3) for c in (False, True)]
+CASES += [FeatureBed(2, False, overlap=True), FeatureBed(3, False, overlap=True)]
 CASES += [TranscriptBed(n, c, k) for n in (1, 2, 3) for c in (False, True) for k in (False, True)]
